@@ -328,6 +328,13 @@ class Run:
         self.known = load_known()
         self.notes = {}
         self._distinct = set()
+        # witnesses of earlier runs of this property are stale
+        import glob
+        for f in glob.glob(os.path.join(REPLAYS, "%s-*.json" % prop)):
+            try:
+                os.unlink(f)
+            except OSError:
+                pass
 
     # -- accounting
     def add_tlc(self, r, label=None):
